@@ -80,6 +80,7 @@ func bases(peerIP, gnb string, seid uint64, txSeq uint32) []base {
 		{"SessionEstablishmentRequest", mar(message.NewSessionEstablishmentRequest(0, 0, 0, 1, 0, est...))},
 		{"SessionModificationRequest(update+query)", mar(message.NewSessionModificationRequest(0, 0, seid, 1, 0, updateRules(1, gnb)...))},
 		{"SessionModificationRequest(update+create+remove)", mar(message.NewSessionModificationRequest(0, 0, seid, 1, 0, mod...))},
+		{"SessionModificationRequest(node id + update)", mar(message.NewSessionModificationRequest(0, 0, seid, 1, 0, append([]*ie.IE{node}, updateRules(1, gnb)...)...))},
 		{"SessionDeletionRequest", mar(message.NewSessionDeletionRequest(0, 0, seid, 1, 0))},
 		{"SessionReportResponse", mar(message.NewSessionReportResponse(0, 0, seid, txSeq, 0, ie.NewCause(ie.CauseRequestAccepted)))},
 		{"SessionReportResponse(SEID 0)", mar(message.NewSessionReportResponse(0, 0, 0, txSeq, 0, ie.NewCause(ie.CauseSessionContextNotFound)))},
